@@ -9,7 +9,7 @@
    describe a header that is not a list of media ranges at all.
 
    Negotiation: candidates are JSON, then (if xml_error_serialization) text/xml and
-   application/xml, then the configured media handlers in registration order.  A candidate's
+   application/xml, then the configured media handlers that can serialise, in registration order.  A candidate's
    quality is the q of the most specific range matching it (exact type beats wildcard; ties on
    specificity go to the larger q); the best candidate wins, the first one on ties, and only if
    its quality is > 0.  Without a winner "+json" / "+xml" anywhere in the header select JSON /
@@ -44,8 +44,10 @@ Quality(m, rs) == LET ks == {Key(rs[j], m) : j \in 1..Len(rs)} \cup {-1}
 
 InSeq(s, x) == \E j \in 1..Len(s) : s[j] = x
 Predefined(xmlOn) == IF xmlOn THEN <<JSON, TEXTXML, APPXML>> ELSE <<JSON>>
+(* only a handler that can serialise is a candidate: the multipart form handler is parse-only *)
+Serializes(h) == h # MULTIPART
 Candidates(xmlOn, handlers) ==
-    Predefined(xmlOn) \o SelectSeq(handlers, LAMBDA h : ~InSeq(Predefined(xmlOn), h))
+    Predefined(xmlOn) \o SelectSeq(handlers, LAMBDA h : ~InSeq(Predefined(xmlOn), h) /\ Serializes(h))
 
 BestMatch(cands, rs) ==
     IF cands = <<>> THEN NONE
